@@ -191,7 +191,7 @@ func (W) Gen(prop string, seed uint64, tier string) *world.Plan {
 		}
 		nm := len(ifc.Ifaces[k.t].Methods)
 		var op world.Op
-		switch r.Pick(26, 14, 22, 12, 5, 4, 9, 8, 7, 9, 6) {
+		switch r.Pick(26, 14, 22, 12, 6, 4, 9, 8, 7, 9, 10) {
 		case 0:
 			op = world.Op{K: "iapply", B: b, T: k.t, N: k.n, F: r.Intn(nm), V: r.U64()}
 		case 1:
@@ -220,7 +220,7 @@ func (W) Gen(prop string, seed uint64, tier string) *world.Plan {
 		}
 	}
 	p.Tasks = []world.Task{{Role: "history", Ops: ops}}
-	if r.Chance(350) {
+	if r.Chance(450) {
 		p.Knobs = map[string]int{"ikept": 1}
 	}
 	return p
@@ -526,6 +526,13 @@ func (x *exec) step(op world.Op) {
 		k := vkey{op.T, op.N}
 		s := x.v(k)
 		if !s.mocked {
+			// user code changes the variable while it is not mocked (e.g. between a Reset and the next
+			// mock): this value is what the next mock must save and the Reset after it must put back
+			ifc.Assign(ifc.Ifaces[op.T].Vars[op.N], op.F == 1)
+			x.keep = append(x.keep, reflect.ValueOf(ifc.Ifaces[op.T].Vars[op.N]).Elem().Interface())
+			x.initial[k] = words(ifc.Ifaces[op.T].Vars[op.N])
+			x.env.Probe("variable_assigned_while_unmocked")
+			x.env.T("iassign %s impl=%d (un-mocked)", vname(k), op.F)
 			return
 		}
 		ifc.Assign(ifc.Ifaces[op.T].Vars[op.N], op.F == 1)
